@@ -9,6 +9,7 @@ import (
 
 // NewBind ...
 func NewBind(account, passwd string, nodeID, seqID uint32) *Bind {
+	clockYield()
 	connectPdu := &Bind{
 		Header: sgip.Header{
 			TotalLength: 0,
